@@ -129,7 +129,7 @@ def ht_closer_units(order, kind, f, tier):
         unit("ht.closer.%s.o%d.f%d.%d" % (kind, order, f, i + 1), ["C17"], "units/ht.c", entry="h_ht_closer", tier=tier, solver="cadical", unwind=129, kind="proof",
              defines=["HT_ORDER=%d" % order, "HT_KIND=%d" % HT_KINDS[kind], "HT_F=%d" % f, "HT_ONLY=%d" % (i + 1)], shared_tags=True,
              bound="table order %d, free position %d (rotation symmetry: one position stands for all - assumption)" % (order, f),
-             functions=["find_closer_entry_<name> (order %d, %s keys)" % (order, kind)], expect_tags=[tag], timeout=2400, mem_gb=20,
+             functions=["find_closer_entry_<name> (order %d, %s keys)" % (order, kind)], expect_tags=[tag], timeout=2400, mem_gb=16, mem_budget_gb=12,
              assumes=["window-based invariant with ghost indices (universal generalisation)", "uninterpreted hash", "rotation symmetry of the table for the choice of the free position"])
 
 
@@ -137,7 +137,7 @@ def ht_putd_units(order, kind, c, tier):
     fx = ["C17.closer.fx.no-candidate-changes-nothing", "C17.closer.fx.gives-up-only-when-no-entry-can-move", "C17.closer.fx.moved-entry-lies-between-its-home-and-the-hole",
           "C17.closer.fx.bitmap-bit-moves-with-the-entry", "C17.closer.fx.hole-receives-the-entry", "C17.closer.fx.nothing-else-changes"]
     unit("ht.closer.fx.%s.o%d" % (kind, order), ["C17"], "units/ht.c", entry="h_ht_closer_fx", tier=tier, solver="cadical", unwind=129, kind="proof",
-         defines=["HT_ORDER=%d" % order, "HT_KIND=%d" % HT_KINDS[kind], "HT_F=5"], shared_tags=True, expect_tags=fx, timeout=900, mem_gb=20,
+         defines=["HT_ORDER=%d" % order, "HT_KIND=%d" % HT_KINDS[kind], "HT_F=5"], shared_tags=True, expect_tags=fx, timeout=900, mem_gb=8,
          bound="table order %d, free position 5 (rotation symmetry), every table content" % order,
          functions=["find_closer_entry_<name> (order %d, %s keys): exact functional effect" % (order, kind)],
          assumes=["rotation symmetry of the table for the choice of the free position"])
@@ -146,12 +146,17 @@ def ht_putd_units(order, kind, c, tier):
             "C17.putd.no-binding-appears", "C17.putd.reports-previous-value"]
     for moves in (1, 2):
         for i, tag in enumerate(tags):
+            if moves == 2 and i + 1 not in (4, 6):
+                continue
+            # obligations 1 and 2 are discharged in 6-9 min; the Inv / view obligations did not finish in 100 min on the repaired tree (a
+            # counterexample on the unrepaired tree took 10 min): best effort - a failed obligation still is a violation, a timeout is "undecided"
+            firm = moves == 1 and i + 1 in (1, 2)
             unit("ht.putd.%s.o%d.c%d.m%d.%d" % (kind, order, c, moves, i + 1), ["C17"], "units/ht.c", entry="h_ht_putd", tier=tier, solver="cadical", unwind=129, kind="bounded",
-                 cbmc_unwindset=["hashtable_put_VT.0:34", "hashtable_put_VT.1:66", "hashtable_put_VT.2:%d" % (moves + 2)], best_effort=(moves == 2),
+                 cbmc_unwindset=["hashtable_put_VT.0:34", "hashtable_put_VT.1:66", "hashtable_put_VT.2:%d" % (moves + 2)], best_effort=not firm,
                  defines=["HT_ORDER=%d" % order, "HT_KIND=%d" % HT_KINDS[kind], "HT_PIN_HOME=%d" % c, "HT_STUB_CLOSER=1", "HT_MAXMOVES=%d" % moves, "HT_ONLY=%d" % (i + 1)], shared_tags=True,
                  bound="table order %d, home %d (rotation symmetry), at most %d displacement step(s) per insertion" % (order, c, moves),
                  functions=["hashtable_put_<name> (order %d, %s keys) incl. the displacement loop; find_closer_entry replaced by its contract (ht.closer.fx)" % (order, kind)],
-                 expect_tags=[tag], timeout=1500, mem_gb=20,
+                 expect_tags=[tag], timeout=300, mem_gb=12, mem_budget_gb=8,
                  assumes=["find_closer_entry replaced by its functional contract (any movable candidate), proved by ht.closer.fx", "hash = arbitrary table over the occurring keys (pairwise consistent), home of the inserted key pinned",
                           "Inv assumed as instances (all A; B and C over the add range and ghost slots), re-established at arbitrary ghost indices",
                           "rotation symmetry of the table for the choice of the home position"])
@@ -176,7 +181,7 @@ for _w in range(12):
 unit("match.parse", ["C16", "C06"], "units/u_fetch_parse.c", entry="h_match_parse", kind="bounded", tier="thorough", best_effort=True,
      bound="rule objects of <= 3 members over 10 adversarial names x 6 JSON types, containsAllOf lists of <= 2 elements",
      unwind=20, functions=["create_fetch", "alloc_fetch", "add_matchers", "create_matcher", "fill_path_elements", "create_path_matcher", "free_matcher", "free_path_elements", "free_fetch"],
-     expect_tags=["C16.parse.every-matcher-slot-filled", "C16.parse.unknown-name-or-wrong-operand-type-is-refused"], timeout=600, solver="cadical",
+     expect_tags=["C16.parse.every-matcher-slot-filled", "C16.parse.unknown-name-or-wrong-operand-type-is-refused"], timeout=300, solver="cadical",
      flags=["--memory-leak-check"], goto_instrument_args=["--value-set-fi-fp-removal"], assumes=CJ_ASSUME_LATE)
 unit("fetch.add", ["C02", "C01", "C06"], "units/u_fetch_parse.c", entry="h_fetch_add", unwind=12, cbmc_unwindset=CJ_UNWIND_LATE + ["cJSON_GetObjectItem.0:5"], functions=["add_fetch_to_peer", "get_fetch_id", "find_fetch", "ids_equal", "create_fetch", "alloc_fetch"],
      shared_tags=True, expect_tags=["C02.fetch.refusal-answers-the-request-not-its-parameters", "C02.fetch.accepted-iff-well-formed-and-the-fetch-id-is-not-in-use"], timeout=300, solver="cadical",
@@ -203,11 +208,11 @@ WS_NO_DEFLATE = ["--remove-function-body", "private_decompress", "--remove-funct
                  "--generate-function-body", "private_decompress|reassemble|websocket_compress", "--generate-function-body-options", "assert-false-assume-false"]
 EXT_COMMON = dict(WS_COMMON, goto_instrument_args=["--remove-function-body", "alloc_compression", "--value-set-fi-fp-removal"], flags=[])
 unit("ext.offer.short", ["C19", "C06"], "units/ws.c", entry="h_ext_offer", functions=["check_websocket_extensions", "fill_requested_extension", "write_to_response"], kind="bounded",
-     bound="one extension offer (no comma) of 26 bytes, every content (shorter offers: padded with white space)", expect_tags=["C19.ext.response-fits-its-buffer"], timeout=900, tier="thorough", best_effort=True,
+     bound="one extension offer (no comma) of 26 bytes, every content (shorter offers: padded with white space)", expect_tags=["C19.ext.response-fits-its-buffer"], timeout=300, tier="thorough", best_effort=True,
      **dict(EXT_COMMON, unwind=28, defines=["NO_GZIP", "EXT_MAX=26", "EXT_SINGLE=1"]), allow_no_body=["alloc_compression"],
      assumes=["alloc_compression (zlib deflateInit/inflateInit) cut off", "isspace: C-locale model", "realloc: cbmc model (may not fail)"])
 unit("ext.offer", ["C19", "C06"], "units/ws.c", entry="h_ext_offer", functions=["check_websocket_extensions", "fill_requested_extension", "write_to_response"], kind="bounded",
-     bound="Sec-WebSocket-Extensions values of <= 48 bytes, every content", expect_tags=["C19.ext.response-fits-its-buffer"], timeout=900, tier="thorough", best_effort=True,
+     bound="Sec-WebSocket-Extensions values of <= 48 bytes, every content", expect_tags=["C19.ext.response-fits-its-buffer"], timeout=300, tier="thorough", best_effort=True,
      **dict(EXT_COMMON, unwind=50), allow_no_body=["alloc_compression"],
      assumes=["alloc_compression (zlib deflateInit/inflateInit) cut off", "isspace: C-locale model", "realloc: cbmc model (may not fail)"])
 COMP_ASSUME = ["zlib (src/zlib: inflate, deflate, *Init2_, *End) replaced by assumed contracts that check the windows cjet hands over (stubs/zlib_ghost.h)",
@@ -217,7 +222,7 @@ def comp_frames_unit(l1, lo, hi, tier):
          bound="2 or 3 fragments of %d, %d..%d and <= 3 bytes (every combination as its own constant-size path), text and binary, <= 3 inflate calls per message, every byte value" % (l1, lo, hi),
          functions=["binary_frame_received_comp", "text_frame_received_comp", "reassemble", "private_decompress", "read_int_from_array", "write_int_to_array"],
          includes=["{REPO}/src/zlib"], defines=["NO_GZIP", "COMP_L1MIN=%d" % l1, "COMP_L1=%d" % l1, "COMP_L2MIN=%d" % lo, "COMP_L2=%d" % hi], unwind=66, solver="cadical",
-         flags=["--memory-leak-check", "--slice-formula"], timeout=900, mem_gb=16, shared_tags=True, replay={"c": "replay/comp_replay.c", "extract": "comp_extract", "link": ["src/compression.c", "src/zlib/*.c"], "libs": ["-I", "{REPO}/src/zlib"]}, 
+         flags=["--memory-leak-check", "--slice-formula"], timeout=1800, mem_gb=8, mem_budget_gb=3, shared_tags=True, replay={"c": "replay/comp_replay.c", "extract": "comp_extract", "link": ["src/compression.c", "src/zlib/*.c"], "libs": ["-I", "{REPO}/src/zlib"]}, 
          expect_tags=["C19.reassemble.buffer-accounting-matches-the-allocation", "C19.reassemble.inflate-gets-the-fragments-concatenated-in-order", "C19.decompress.application-gets-exactly-the-inflated-bytes"],
          assumes=COMP_ASSUME + ["realloc: model that copies byte by byte (small objects) / by array primitive, and requires the caller to double (as compression.c does)"])
 
@@ -299,7 +304,7 @@ unit("bs.writev", ["C10"], "units/bs.c", entry="h_bs_writev",
 unit("bs.flush", ["C10"], "units/bs.c", entry="h_bs_flush", functions=["write_function", "send_buffer", "error_function"],
      expect_tags=["C10.flush.nothing-lost-nothing-duplicated", "C10.flush.bytes-in-order"], timeout=700, **BS_WRITE)
 unit("bs.start", ["C09", "C13", "C05"], "units/bs.c", entry="h_bs_start", tier="thorough", best_effort=True, functions=["buffered_socket_read_until", "buffered_socket_read_exactly", "go_reading", "buffered_socket_init", "error_function"],
-     expect_tags=["C13.start.read-error-and-over-long-line-are-reported-through-the-error-callback", "C05.start.no-callback-after-the-connection-was-closed"], timeout=900,
+     expect_tags=["C13.start.read-error-and-over-long-line-are-reported-through-the-error-callback", "C05.start.no-callback-after-the-connection-was-closed"], timeout=300,
      **dict(BS_COMMON, unwind=14, goto_instrument_args=cut(["write_function", "send_buffer", "read_function"]) + ["--value-set-fi-fp-removal"]))
 unit("bs.read_exactly", ["C09"], "units/bs.c", entry="h_bs_read_exactly", functions=["get_read_ptr", "fill_buffer", "reorganize_read_buffer"],
      expect_tags=["C09.exact.hands-out-the-next-stream-bytes-whatever-the-chunking", "C09.exact.buffer-still-mirrors-the-stream"], timeout=700, **BS_READ)
@@ -527,7 +532,7 @@ unit("timer.lifecycle", ["C07", "C14", "C06"], "units/u_timerlinux.c", entry="h_
      assumes=["timerfd_create / timerfd_settime / close: assumed OS contracts (any descriptor or -1; 0 or -1)", "event loop add/remove: recording stubs that require the loop's this_ptr"])
 
 unit("timer.spec", ["C14"], "units/u_timerlinux.c", entry="h_timer_lifecycle", functions=["convert_timeoutns_to_itimerspec"], unwind=4, solver="cadical", tier="thorough", best_effort=True,
-     defines=["TIMER_SPEC=1"], expect_tags=["C14.timer.deadline-is-exactly-the-requested-nanoseconds"], timeout=1800, goto_instrument_args=["--value-set-fi-fp-removal"],
+     defines=["TIMER_SPEC=1"], expect_tags=["C14.timer.deadline-is-exactly-the-requested-nanoseconds"], timeout=300, goto_instrument_args=["--value-set-fi-fp-removal"],
      assumes=["64-bit division by 10^9: may not finish (then undecided)"])
 
 PROPERTY_META["C14"] = {'level': 'proof',
